@@ -614,10 +614,39 @@ def _c06_schema_sections(tier, replay):
         return len(observations)
     return run
 
+def _c06_deep(tier, v):
+    """well-formed but deeply nested input for the recursive definitions (spec/Deep.tla)"""
+    r = vlib.run_tlc("Deep.tla", "Deep.cfg", "deep", workers=1, timeout=600)
+    if r["violated"]:
+        raise ToolError("Deep: TLC reports a violation in the specification itself (see %s)" % r["out"])
+    recs = os.path.join(WORK, "deep.ndjson")
+    if vlib.printed_json(r["out"], recs) == 0:
+        raise ToolError("Deep produced no behaviours")
+    built, binp = family_build(tier, [])
+    out = os.path.join(WORK, "deep_%s.out" % tier)
+    depths = "0,1,2,3,10,1000,20000,100000" + (",1000000" if tier == "thorough" else "")
+    vlib.run_bin(binp, ["deep", depths, out, recs])
+    n = 0
+    for line in open(out):
+        o = json.loads(line)
+        n += 1
+        if "tool_error" in o:
+            raise ToolError("harness: " + o["tool_error"])
+        ob = o["obs"]
+        t = {"k": "lib", "s": o["ty"], "n": 0, "ts": [], "fa": []}
+        if ob["real"] in ("panic", "died"):
+            v.report("c06.deep.died", {"t": t, "depth": o["depth"]},
+                     "%s nested %d levels (%d bytes of well-formed input): %s %s" % (o["ty"], o["depth"], o["bytes"], ob["real"], ob["msg"][:120]), o)
+        elif ob["real"] == "ok" and (ob["levels"] != o["depth"] + 1 or ob["rpos"] != o["bytes"]):
+            v.report("c06.deep.wrong", {"t": t, "depth": o["depth"]},
+                     "%s nested %d levels: loaded %d levels, consumed %d of %d bytes" % (o["ty"], o["depth"], ob["levels"], ob["rpos"], o["bytes"]), o)
+    return n
+
 def _c06_extras(tier):
     sections = _c06_schema_sections(tier, None)
     def run(v):
         n = sections(v)
+        n += _c06_deep(tier, v)
         done, note = _c06_miri(tier, v)
         v.extra_cov = {"inputs_reloaded_under_miri": done}
         if note:
